@@ -152,16 +152,17 @@ Proof. exact iteration_back_visits_remaining_once. Qed.
 Print Assumptions C13_iteration_back_visits_remaining_once.
 
 (* The VM's stepping over lights, groups or locations (vm_discover.dnext) from any name
-   yields the nearest remaining name in the direction of travel, NULL when none. *)
+   yields the nearest remaining name in the direction of travel, NULL when none -- for every directory, a light, group or
+   location named by the empty string included (D63: on the pinned tree `x or Operand.NULL` turned that name into NULL and the
+   theorem needed the hypothesis that no name is empty). *)
 Theorem C13_vm_dnext_nearest : forall d op fwd cur, dir_inv d ->
-  ~ In EmptyString (names_by_oper d op) ->
   exists r, vm_dnext d op fwd cur = to_result r /\ nearest fwd (names_by_oper d op) cur r.
 Proof. exact vm_dnext_nearest. Qed.
 Print Assumptions C13_vm_dnext_nearest.
 
 (* ... and over the members of a group or location, as long as it is still listed. *)
 Theorem C13_vm_dnextm_nearest_while_listed : forall d op name fwd cur l, dir_inv d ->
-  set_by_oper d op name = Some l -> ~ In EmptyString l ->
+  set_by_oper d op name = Some l ->
   exists r, vm_dnextm d op name fwd cur = to_result r /\ nearest fwd l cur r.
 Proof. exact vm_dnextm_nearest_while_listed. Qed.
 Print Assumptions C13_vm_dnextm_nearest_while_listed.
@@ -181,7 +182,6 @@ Print Assumptions C13_member_iteration_group_vanished_refuted.
    member, NULL when none is left, never a fault.  The correspondence runs report which of
    vm_dnextm / vm_dnextm_fixed the tree under test implements. *)
 Theorem C13_vm_dnextm_fixed_nearest : forall d op name fwd cur, dir_inv d ->
-  ~ In EmptyString (members_now d op name) ->
   exists r, vm_dnextm_fixed d op name fwd cur = to_result r /\ nearest fwd (members_now d op name) cur r.
 Proof. exact vm_dnextm_fixed_nearest. Qed.
 Print Assumptions C13_vm_dnextm_fixed_nearest.
